@@ -1,6 +1,6 @@
 (** C13 — stream-attached actors handle every item in order and end with the stream.
     Statements only; proofs live in Inv/. *)
-From Hannibal Require Import Model.Sys Inv.C13 Inv.C03 Chk.C13 Chk.C03.
+From Hannibal Require Import Model.Sys Inv.C13 Inv.C03 Chk.C13 Chk.C03 Inv.C13b.
 
 (** On every execution the model accepts: the items a stream yields are handled exactly once and
     in stream order (each yielded item's handler is entered next, for that item); items and
@@ -27,3 +27,19 @@ Example C13_acceptor_rejects :
   /\ chk_C13 [EvSpawn 0 c; EvCbBegin 0 CbStarted; EvCbEnd 0 CbStarted CbOk; EvYield 0 0 7;
               EvItemBegin 0 0; EvItemEnd 0 0 HAbandoned] = false.
 Proof. vm_compute. auto. Qed.
+
+(** Over whole executions: once its stream has ended, a stream-attached actor never enters a
+    message handler again (the loop is on its way out: finished, stopped, end) ... *)
+Theorem C13_nothing_handled_after_the_stream_ended :
+  forall tr s a x o s', run init tr = Acc s -> actors s a = Some x -> a_sended x = true ->
+  step s (EvHBegin a o) = Acc s' -> False.
+Proof. exact no_handler_after_stream_end. Qed.
+Print Assumptions C13_nothing_handled_after_the_stream_ended.
+
+(** ... and a run ends only when it has terminated - or still sits inside its finished / stopped
+    callback, waiting for something other than time. *)
+Theorem C13_stream_end_terminates_the_actor :
+  forall tr s s' a x, run init tr = Acc s -> step s EvQuiesce = Acc s' -> actors s a = Some x -> a_sended x = true ->
+  a_phase x = PhDone \/ a_phase x = PhCb CbFinished WExit \/ a_phase x = PhCb CbStopped WExit.
+Proof. exact stream_end_terminates. Qed.
+Print Assumptions C13_stream_end_terminates_the_actor.
